@@ -33,7 +33,12 @@ var c16lists = []c16list{
 	{"everytype", []string{"protocolIdentifier", "sourceTransportPort", "ingressInterface", "octetDeltaCount", "sourceIPv4Address", "sourceIPv6Address", "sourceMacAddress",
 		"interfaceName", "flowStartSeconds", "flowStartMilliseconds", "dataRecordsReliability", "absoluteError", "mibObjectValueInteger", "ipHeaderPacketSection", "sourcePodName", "reverseOctetDeltaCount"},
 		[]uint32{0, 0, 0, 0, 0, 0, 0, 0, 0, 0, 0, 0, 0, 0, registry.AntreaEnterpriseID, registry.IANAReversedEnterpriseID}},
+	// in data sets the first element carries a value that cannot be encoded for it (an IPv6 address in an
+	// ipv4Address element): whatever ends up in those four bytes, the bookkeeping must stay right
+	{"unencodable", []string{"sourceIPv4Address", "sourceTransportPort"}, []uint32{0, 0}},
 }
+
+const c16unencodable = 4 // index of that list
 
 func c16ies(l c16list) []*entities.InfoElement {
 	var out []*entities.InfoElement
@@ -120,6 +125,9 @@ func c16Ops() []c16op {
 	vn := []string{"AddRecord", "AddRecordWithExtraElements(0)", "AddRecordWithExtraElements(2)", "AddRecordV2"}
 	for li, l := range c16lists {
 		for v := 0; v < 4; v++ {
+			if li == c16unencodable && v != 0 && v != 3 {
+				continue
+			}
 			ops = append(ops, c16op{name: fmt.Sprintf("%s(%s)", vn[v], l.name), kind: "add", list: li, variant: v})
 		}
 	}
@@ -129,29 +137,31 @@ func c16Ops() []c16op {
 }
 
 type c16done struct {
-	op   c16op
-	id   uint16
-	st   entities.ContentType
-	seq  int
+	op  c16op
+	id  uint16
+	st  entities.ContentType
+	seq int
 }
 
 type c16sys struct {
-	ops  []c16op
-	set  entities.Set
+	ops []c16op
+	set entities.Set
 	// scratch is the caller's slice, reused between the copying add calls (AddRecord /
 	// AddRecordWithExtraElements copy the elements; only AddRecordV2 adopts the slice)
-	scratch []entities.InfoElementWithValue
-	sinceReset []c16done // operations since the last reset (for the fresh-set differential)
-	handedOut  []entities.Record // GetRecords() result obtained before the last reset
+	scratch     []entities.InfoElementWithValue
+	sinceReset  []c16done         // operations since the last reset (for the fresh-set differential)
+	handedOut   []entities.Record // GetRecords() result obtained before the last reset
 	handedBytes [][]byte
 	failAdds    []int
 	// model
-	st       entities.ContentType
-	prepared bool
-	id       uint16
-	recs     [][]byte
-	hdrLenOK bool // header length field is current
-	seq      int
+	st         entities.ContentType
+	prepared   bool
+	id         uint16
+	recs       [][]byte
+	hdrLenOK   bool // header length field is current
+	seq        int
+	wild       map[int]int // record index -> leading bytes whose content is not compared (unencodable value)
+	handedWild map[int]int
 }
 
 func newC16(ops []c16op) *c16sys {
@@ -178,12 +188,14 @@ func (s *c16sys) Apply(opi int) (v *xplore.Violation) {
 		// what the application was handed before the reset must not change under its feet
 		s.handedOut = append([]entities.Record{}, s.set.GetRecords()...)
 		s.handedBytes = nil
+		s.handedWild = s.wild
 		for _, r := range s.recs {
 			s.handedBytes = append(s.handedBytes, append([]byte{}, r...))
 		}
 		s.set.ResetSet()
 		s.prepared, s.recs, s.hdrLenOK = false, nil, false
 		s.sinceReset = nil
+		s.wild = nil
 	case "update":
 		s.set.UpdateLenInHeader()
 		s.hdrLenOK = true
@@ -232,6 +244,9 @@ func (s *c16sys) Apply(opi int) (v *xplore.Violation) {
 				els = append(els, e)
 			} else {
 				e, raw := c16value(ie, s.seq)
+				if op.list == c16unencodable && ie.Name == "sourceIPv4Address" {
+					e = entities.NewIPAddressInfoElement(ie, net.ParseIP("2001:db8::1"))
+				}
 				els = append(els, e)
 				raws = append(raws, raw)
 			}
@@ -261,6 +276,12 @@ func (s *c16sys) Apply(opi int) (v *xplore.Violation) {
 			s.recs = append(s.recs, refcodec.TemplateBody(refcodec.Template{ID: s.id, Fields: specs}))
 		} else {
 			s.recs = append(s.recs, refcodec.EncodeRecord(refcodec.Template{Fields: specs}, raws))
+			if op.list == c16unencodable {
+				if s.wild == nil {
+					s.wild = map[int]int{}
+				}
+				s.wild[len(s.recs)-1] = 4 // the first four bytes hold the unencodable value: not compared
+			}
 		}
 		s.hdrLenOK = false
 	}
@@ -313,6 +334,9 @@ func (s *c16sys) Finish() *xplore.Violation {
 					els = append(els, e)
 				} else {
 					e, _ := c16value(ie, d.seq)
+					if d.op.list == c16unencodable && ie.Name == "sourceIPv4Address" {
+						e = entities.NewIPAddressInfoElement(ie, net.ParseIP("2001:db8::1"))
+					}
 					els = append(els, e)
 				}
 			}
@@ -339,7 +363,7 @@ func (s *c16sys) Finish() *xplore.Violation {
 		}
 	}
 	for i, r := range s.handedOut {
-		if !bytes.Equal(r.GetBuffer(), s.handedBytes[i]) {
+		if w := s.handedWild[i]; len(r.GetBuffer()) != len(s.handedBytes[i]) || !bytes.Equal(r.GetBuffer()[w:], s.handedBytes[i][w:]) {
 			return xplore.V("reset-aliases-old-records", "record %d obtained from GetRecords() before ResetSet now serialises to %x, it was %x (the reset set reuses storage it had handed out)", i, short(r.GetBuffer()), short(s.handedBytes[i]))
 		}
 	}
@@ -361,7 +385,7 @@ func (s *c16sys) invariants(after string) *xplore.Violation {
 		if len(buf) != r.GetRecordLength() {
 			return xplore.V("record-length", "after %s: record %d buffer has %d bytes, GetRecordLength()=%d", after, i, len(buf), r.GetRecordLength())
 		}
-		if !bytes.Equal(buf, s.recs[i]) {
+		if w := s.wild[i]; !bytes.Equal(buf[w:], s.recs[i][w:]) {
 			return xplore.V("record-bytes", "after %s: record %d serialises to %x, reference %x", after, i, short(buf), short(s.recs[i]))
 		}
 		sum += r.GetRecordLength()
@@ -391,7 +415,7 @@ func (s *c16sys) invariants(after string) *xplore.Violation {
 		}
 		off := 20
 		for i, r := range s.recs {
-			if !bytes.Equal(msg[off:off+len(r)], r) {
+			if w := s.wild[i]; !bytes.Equal(msg[off+w:off+len(r)], r[w:]) {
 				return xplore.V("serialised-bytes", "after %s: record %d differs in the serialised message", after, i)
 			}
 			off += len(r)
@@ -475,7 +499,7 @@ func runC16(tier, replay string) int {
 	ev.Coverage = common.Coverage{
 		"states": res.Histories, "transitions": res.HistTransitions, "traces_validated_against_impl": res.Histories, "samples": samples,
 		"evaluations": res.Histories, "distinct_nontrivial": res.Histories,
-		"rule":       "every well-formed history (a prepare precedes adds; anything after a reset needs a new prepare) up to hist_depth over 23 operations {PrepareSet(Template|Data, 256|257), the four add variants (AddRecord, AddRecordWithExtraElements(0|2), AddRecordV2) x four element lists (empty, fixed, strings incl. a 300-byte one, one element of every encodable type), UpdateLenInHeader, ResetSet, an add that must be refused (valued elements into a template set)} on a real encoding set; after every operation: GetSetLength = 4 + sum GetRecordLength = bytes CreateIPFIXMsg serialises - 16, every record buffer equals its reported length and the independent refcodec encoding, the header length field is right after UpdateLenInHeader; because every add variant and every post-reset history is compared with the same reference bytes, the add paths are byte-identical and a reset set behaves like a new one. states = histories executed (distinct by construction)",
+		"rule":       "every well-formed history (a prepare precedes adds; anything after a reset needs a new prepare) up to hist_depth over 25 operations {PrepareSet(Template|Data, 256|257), the four add variants (AddRecord, AddRecordWithExtraElements(0|2), AddRecordV2) x four element lists (empty, fixed, strings incl. a 300-byte one, one element of every encodable type), two adds of a list whose first value cannot be encoded for its element (lengths checked, those bytes not compared), UpdateLenInHeader, ResetSet, an add that must be refused (valued elements into a template set)} on a real encoding set; after every operation: GetSetLength = 4 + sum GetRecordLength = bytes CreateIPFIXMsg serialises - 16, every record buffer equals its reported length and the independent refcodec encoding, the header length field is right after UpdateLenInHeader; because every add variant and every post-reset history is compared with the same reference bytes, the add paths are byte-identical and a reset set behaves like a new one. states = histories executed (distinct by construction)",
 		"exhaustive": res.HistExhaustive, "hist_depth": res.HistDepthDone,
 	}
 	ev.WallS = common.Since(rep.Start)
